@@ -71,12 +71,12 @@ fn subst(op: &str, keys: &[String]) -> Argv {
     resp::line(&s)
 }
 
-const UNORDERED: &[&str] = &["KEYS", "SMEMBERS", "HGETALL", "HKEYS", "HVALS", "SCAN"];
+const UNORDERED: &[&str] = &["KEYS", "SMEMBERS", "HGETALL", "HKEYS", "HVALS", "SCAN", "SPOP", "CONFIG"];
 
 fn canon(cmd: &str, r: &RespValue) -> String {
     if UNORDERED.contains(&cmd) {
         if let RespValue::Array(Some(items)) = r {
-            let mut v: Vec<String> = if cmd == "HGETALL" {
+            let mut v: Vec<String> = if cmd == "HGETALL" || cmd == "CONFIG" {
                 items.chunks(2).map(|c| c.iter().map(resp::show).collect::<Vec<_>>().join("=")).collect()
             } else {
                 items.iter().map(resp::show).collect()
@@ -361,6 +361,52 @@ fn tx_transcript(shards: usize, keys: &[String], body: &[&str]) -> Result<Vec<St
 
 vh::use_jemalloc!();
 
+
+// ---------------------------------------------------------------------------------------------
+// command-set sweep: every command shape of the parsers on a key of every type, 1 shard vs N shards
+// ---------------------------------------------------------------------------------------------
+
+/// (name, seeding ops) for the key K1; K1/K2 are replaced by ka/kb/kc according to the placement.
+const SWEEP_SEEDS: &[(&str, &[&str])] = &[
+    ("none", &[]),
+    ("string", &["X SET K1 10"]),
+    ("list", &["X RPUSH K1 a b"]),
+    ("set", &["X SADD K1 a b"]),
+    ("hash", &["X HSET K1 a 1 b 2"]),
+    ("zset", &["X ZADD K1 1 a 2 b"]),
+];
+/// placements (K1, K2): K1 on the one shard and K2 elsewhere, the reverse, and both on one shard
+const SWEEP_PLACEMENTS: &[(&str, &str)] = &[("kc", "ka"), ("ka", "kc"), ("ka", "kb")];
+
+/// Replies that are random or time-dependent by nature are not compared.
+fn sweep_skips(a: &Argv) -> bool {
+    let name = String::from_utf8_lossy(&a[0]).to_ascii_uppercase();
+    let sub = a.get(1).map(|x| String::from_utf8_lossy(x).to_ascii_uppercase()).unwrap_or_default();
+    // MULTI/EXEC/DISCARD/WATCH/UNWATCH are connection-level commands (the handler never forwards them to
+    // ShardedActorState::execute); the transaction part above drives them through the real handler
+    matches!(name.as_str(), "TIME" | "INFO" | "MULTI" | "EXEC" | "DISCARD" | "WATCH" | "UNWATCH") || (name == "SPOP" && a.len() == 2) || (name == "ACL" && sub == "GENPASS")
+}
+
+fn sweep_instances() -> Vec<Argv> {
+    vh::cmdgen::all_instances(vh::cmdgen::Profile::Routing).into_iter().filter(|a| !a.is_empty() && !sweep_skips(a)).collect()
+}
+
+fn sweep_op(inst: &Argv) -> String {
+    let toks: Vec<String> = inst
+        .iter()
+        .map(|t| match t.as_slice() {
+            b"k1" => "K1".to_string(),
+            b"k2" => "K2".to_string(),
+            other => resp::esc(other),
+        })
+        .collect();
+    format!("X {}", toks.join(" "))
+}
+
+fn place(op: &str, k1: &str, k2: &str) -> String {
+    op.split(' ').map(|t| if t == "K1" { k1 } else if t == "K2" { k2 } else { t }).collect::<Vec<_>>().join(" ")
+}
+
 fn main() {
     let args = cli::parse_args();
     vh::quiet_panics();
@@ -462,8 +508,49 @@ fn main() {
             }
         });
     }
+    // ---- command-set sweep: every command shape x key type x placement x N
+    let sweep_shards: Vec<usize> = if args.tier == Tier::Thorough { vec![2, 3, 4, 5, 16] } else { vec![2, 3, 16] };
+    let insts = sweep_instances();
+    let mut sweep_items: Vec<(usize, usize, usize, usize, bool)> = Vec::new();
+    for n in &sweep_shards {
+        for i in 0..insts.len() {
+            let two_key = insts[i].iter().any(|t| t.as_slice() == b"k2");
+            let keyed = two_key || insts[i].iter().any(|t| t.as_slice() == b"k1");
+            for s in 0..SWEEP_SEEDS.len() {
+                if !keyed && s > 1 {
+                    continue; // key-less commands: an empty keyspace and one with a string are enough
+                }
+                for p in 0..SWEEP_PLACEMENTS.len() {
+                    if p == 2 && !two_key {
+                        continue;
+                    }
+                    sweep_items.push((*n, i, s, p, false));
+                    if two_key {
+                        sweep_items.push((*n, i, s, p, true));
+                    }
+                }
+            }
+        }
+    }
+    let sweep_cases = sweep_items.len() as u64;
+    vh::par::par_map(&sweep_items, |_, (n, i, s, p, k2_set)| {
+        let (keys, _) = pick_keys(*n);
+        let (k1, k2) = SWEEP_PLACEMENTS[*p];
+        let mut hist: Vec<String> = SWEEP_SEEDS[*s].1.iter().map(|h| place(h, k1, k2)).collect();
+        if *k2_set {
+            hist.push(place("X SET K2 9", k1, k2));
+        }
+        let h: Vec<&str> = hist.iter().map(|x| x.as_str()).collect();
+        let op = place(&sweep_op(&insts[*i]), k1, k2);
+        let out = run(*n, &keys, &h, &op);
+        if let Some((sig, detail)) = out.violation {
+            rep.violation(sig, detail, json!({"shards": n, "keys": keys, "history": h, "op": op}));
+        }
+    });
+    eprintln!("command-set sweep: {} instances, {} cases ({:.1}s)", insts.len(), sweep_cases, rep.elapsed_s());
     let coverage = json!({
         "transaction_replay_cases": tx_cases,
+        "command_set_sweep": {"command_instances": insts.len(), "cases": sweep_cases, "key_types": SWEEP_SEEDS.iter().map(|x| x.0).collect::<Vec<_>>(), "placements_k1_k2": SWEEP_PLACEMENTS, "shard_counts": sweep_shards, "not_compared": "TIME, INFO, ACL GENPASS, SPOP without count (random or time-dependent replies); MULTI/EXEC/DISCARD/WATCH/UNWATCH (connection-level, see transaction_replay)"},
         "states": states,
         "transitions": transitions,
         "traces_validated_against_impl": transitions,
